@@ -183,16 +183,31 @@ func hexes(l [][]byte) []string {
 	return out
 }
 
+// hwAddr draws a hardware type and a link-layer address: any 16-bit type and any length, and the pairs that exist
+// (Ethernet 6, EUI-64 8, InfiniBand 20 octets, IEEE 1394 8, ...).
+func (g *G) hwAddr(maxLen int) (uint16, []byte) {
+	switch g.R.IntN(4) {
+	case 0:
+		real := [][2]int{{1, 6}, {6, 6}, {27, 8}, {32, 20}, {24, 8}, {15, 2}, {20, 1}, {32, 8}, {1, 20}}
+		p := real[g.R.IntN(len(real))]
+		return uint16(p[0]), g.bytes(min(p[1], maxLen))
+	case 1:
+		return uint16(g.R.UintN(40)), g.bytes(g.boundLen(maxLen))
+	}
+	return uint16(g.R.UintN(65536)), g.bytes(g.boundLen(maxLen))
+}
+
 func (g *G) DUID() (dhcpv6.DUID, *tree.Node) {
 	switch g.R.IntN(5) {
 	case 0:
-		hw, t, ll := uint16(g.R.UintN(65536)), g.R.Uint32(), g.bytes(g.boundLen(122))
+		t := g.R.Uint32()
+		hw, ll := g.hwAddr(122)
 		return &dhcpv6.DUIDLLT{HWType: iana.HWType(hw), Time: t, LinkLayerAddr: ll}, tree.N("duid-llt").U("hw", uint64(hw)).U("time", uint64(t)).B("ll", ll)
 	case 1:
 		en, id := g.R.Uint32(), g.bytes(g.boundLen(124))
 		return &dhcpv6.DUIDEN{EnterpriseNumber: en, EnterpriseIdentifier: id}, tree.N("duid-en").U("en", uint64(en)).B("id", id)
 	case 2:
-		hw, ll := uint16(g.R.UintN(65536)), g.bytes(g.boundLen(126))
+		hw, ll := g.hwAddr(126)
 		return &dhcpv6.DUIDLL{HWType: iana.HWType(hw), LinkLayerAddr: ll}, tree.N("duid-ll").U("hw", uint64(hw)).B("ll", ll)
 	case 3:
 		var u [16]byte
@@ -387,6 +402,9 @@ func (g *G) Option(code int, depth int) (dhcpv6.Option, *tree.Node) {
 		t := tree.N("vendoropts").U("en", uint64(en))
 		for i := 0; i < R.IntN(5); i++ {
 			c := R.IntN(65536)
+			if R.IntN(2) == 0 { // a sub-option number that is also the number of a DHCPv6 option (separate code spaces)
+				c = AllCodes[R.IntN(len(AllCodes))]
+			}
 			d := g.bytes(g.smallLen())
 			o.VendorOpts = append(o.VendorOpts, &dhcpv6.OptionGeneric{OptionCode: dhcpv6.OptionCode(c), OptionData: d})
 			t.K(tree.N("sub").U("code", uint64(c)).B("data", d))
@@ -447,6 +465,9 @@ func (g *G) Option(code int, depth int) (dhcpv6.Option, *tree.Node) {
 				t.K(tree.N("ntp-fqdn").L("names", ns))
 			default:
 				c := 4 + R.IntN(65000)
+				if R.IntN(2) == 0 { // a sub-option number that is also the number of a DHCPv6 option (separate code spaces)
+					c = AllCodes[3+R.IntN(len(AllCodes)-3)]
+				}
 				d := g.bytes(g.smallLen())
 				o.Suboptions = append(o.Suboptions, &dhcpv6.OptionGeneric{OptionCode: dhcpv6.OptionCode(c), OptionData: d})
 				t.K(tree.N("generic").U("code", uint64(c)).B("data", d))
@@ -481,7 +502,7 @@ func (g *G) Option(code int, depth int) (dhcpv6.Option, *tree.Node) {
 		a, b, c := uint8(R.UintN(256)), uint8(R.UintN(256)), uint8(R.UintN(256))
 		return &dhcpv6.OptNetworkInterfaceID{Typ: dhcpv6.NetworkInterfaceType(a), Major: b, Minor: c}, tree.N("nii").U("type", uint64(a)).U("major", uint64(b)).U("minor", uint64(c))
 	case 79:
-		hw, ll := uint16(R.UintN(65536)), g.bytes(R.IntN(20))
+		hw, ll := g.hwAddr(300)
 		return dhcpv6.OptClientLinkLayerAddress(iana.HWType(hw), ll), tree.N("clientlladdr").U("hw", uint64(hw)).B("ll", ll)
 	case 87:
 		p, e := gen4.Packet(R, 4)
